@@ -10,16 +10,21 @@
     unfolding limit [CBottom] (no well-typed value is written under it), the
     model of CodecForType yields exactly these unfoldings, and every finite
     value is well-typed for every unfolding deep enough to hold it
-    (C01_recursive*, shown for a list/tree type of unbounded depth and width).  PARTIAL:
-    outside the fragment are nil / null.* / BQ elements of scalar slices
-    (findings D24), the BigQuery codec and the
+    (C01_recursive*, shown for a list/tree type of unbounded depth and width).
+    Pointer slices and their documented normalisation: packed slices of
+    pointers to integers are in the fragment, nil entries are dropped
+    (C01_nil_entries_dropped); nil entries of slices of pointers to
+    length-delimited elements read back as pointers to the zero value
+    (C01_nil_entries_become_zero).  PARTIAL:
+    outside the fragment are null.* / BQ elements of scalar slices
+    (finding D24), the BigQuery codec and the
     repeated forms anywhere but directly in a struct field ([top_ok]: finding
     D12); those are decided by the correspondence.  The documented
     normalisations show up as the [canon] hypothesis (an omitted plain field
     holds exactly zero, unencoded fields read back zero, map keys are distinct,
     an empty map in the repeated form reads back nil).  Known findings: D12,
     D24, D27. *)
-From Plenc Require Import Base Varint Wire JsonAny Codec SizeProofs Registry CorrCore RoundTripBase RoundTrip RoundTripZero RecursiveRT.
+From Plenc Require Import Base Varint Wire JsonAny Codec SizeProofs Registry CorrCore RoundTripBase RoundTrip RoundTripZero RecursiveRT SliceNil.
 Open Scope N_scope.
 
 (** decoding the encoding of [v] into a fresh target yields [v] and consumes
@@ -82,6 +87,30 @@ Example C01_recursive_ex :
   unmarshal (node_codec 3) (marshal (node_codec 3) [] (tree_val t)) (zero (node_codec 3)) = Ok (tree_val t).
 Proof. cbv zeta. split; [cbn; lia|]. split; [cbn; unfold int_range; cbn; intuition lia|vm_compute; reflexivity]. Qed.
 
+(** the documented normalisation of pointer slices.  Integers: nil entries are
+    not written and the rest comes back in order ... *)
+Theorem C01_nil_entries_dropped : forall c0 l prior,
+  plain_varint0 c0 ->
+  Forall (fun x => x = VPtr None \/ wfv (CPtr c0) x) l ->
+  fits (CSliceVar (CPtr c0)) (VSlice (filter notnil l)) ->
+  dec (CSliceVar (CPtr c0)) (enc (CSliceVar (CPtr c0)) (VSlice l) []) WTLength prior
+  = Ok (VSlice (filter notnil l), len (enc (CSliceVar (CPtr c0)) (VSlice l) [])).
+Proof. exact varint_ptr_slice_roundtrip. Qed.
+Print Assumptions C01_nil_entries_dropped.
+
+(** ... length-delimited elements: every entry keeps its position, a nil entry
+    comes back as a pointer to what the element codec makes of no data (the
+    zero value: see [nil_struct_entry_reads_zero]) *)
+Theorem C01_nil_entries_become_zero : forall c0 z0 l prior rest,
+  rt_ok c0 -> top_ok c0 -> wire c0 = WTLength ->
+  dec c0 [] WTLength (zero c0) = Ok (z0, 0) ->
+  Forall (fun x => x = VPtr None \/ (wfv (CPtr c0) x /\ fits (CPtr c0) x /\ len (enc (CPtr c0) x []) < two64)) l ->
+  N.of_nat (length l) < two64 ->
+  dec (CSliceLen (CPtr c0)) (enc (CSliceLen (CPtr c0)) (VSlice l) [] ++ rest) WTSlice prior
+  = Ok (VSlice (map (denil c0 z0) l), len (enc (CSliceLen (CPtr c0)) (VSlice l) [])).
+Proof. exact framed_ptr_slice_roundtrip. Qed.
+Print Assumptions C01_nil_entries_become_zero.
+
 (** non-vacuity: a nested value with pointers, times, slices of structs, a
     map, and a slice and a map in the protobuf repeated form *)
 Example C01_ex :
@@ -98,7 +127,7 @@ Example C01_ex :
   rt_ok c /\ unmarshal c (marshal c [] v) (zero c) = Ok v.
 Proof.
   cbv zeta. split.
-  - cbn [rt_ok f_codec f_index f_slot plain_varint map]. unfold bits_ok.
+  - cbn [rt_ok f_codec f_index f_slot plain_varint plain_varint0 map]. unfold bits_ok.
     repeat match goal with
     | |- _ /\ _ => split
     | |- True => exact I
